@@ -243,6 +243,46 @@ theorem concat_toBitList (a o : Bits) (ha : a.WF) : (a.concat o).toBitList = a.t
     · rw [List.getElem_append_right (by simp [toBitList_length]; omega), toBitList_getElem]
       simp [hi, h1, toBitList_length]
 
+/-- operators.py `concat(L,bigend)`: the bit lists of the pieces one after the other (in reversed piece order for
+    `bigend=True`), for every non-empty list of well-formed pieces -/
+theorem concatList_spec (l : List Bits) (hl : ∀ p ∈ l, p.WF) (hne : l ≠ []) (bigend : Bool) :
+    ∃ r, concatList l bigend = .ok r ∧ r.toBitList = (if bigend then l.reverse else l).flatMap toBitList := by
+  have hfold : ∀ (xs : List Bits) (x : Bits), x.WF → (∀ p ∈ xs, p.WF) →
+      (xs.foldl concat x).toBitList = x.toBitList ++ xs.flatMap toBitList := by
+    intro xs
+    induction xs with
+    | nil => intro x _ _; simp
+    | cons y ys ih =>
+      intro x hx hys
+      simp only [List.foldl_cons, List.flatMap_cons]
+      rw [ih (x.concat y) (Proofs.Lemmas.Bits.concat_wf x y) (fun p hp => hys p (List.mem_cons_of_mem _ hp)),
+        concat_toBitList x y hx, List.append_assoc]
+  have hsel : (if bigend = true ∧ l.length ≠ 1 then l.reverse else l) = (if bigend then l.reverse else l) := by
+    cases bigend
+    · simp
+    · simp only [true_and, ↓reduceIte]
+      split
+      · rfl
+      · rename_i h
+        have h' : l.length = 1 := by simpa using h
+        exact (reverse_of_length_one l h').symm
+  unfold concatList
+  rw [hsel]
+  have hne' : (if bigend then l.reverse else l) ≠ [] := by
+    cases bigend <;> simpa using hne
+  have hwf : ∀ p ∈ (if bigend then l.reverse else l), p.WF := by
+    intro p hp
+    cases bigend
+    · exact hl p (by simpa using hp)
+    · exact hl p (by simpa using hp)
+  generalize (if bigend then l.reverse else l) = l' at hne' hwf
+  cases l' with
+  | nil => exact absurd rfl hne'
+  | cons x xs =>
+    refine ⟨_, rfl, ?_⟩
+    rw [hfold xs x (hwf x List.mem_cons_self) (fun p hp => hwf p (List.mem_cons_of_mem _ hp))]
+    simp
+
 /-- concatenating the pieces of `split(k)` (either order convention) gives back the original, for every k ≥ 1,
     ragged last piece included -/
 theorem split_concat (b : Bits) (hb : b.WF) (k : Nat) (hk : 1 ≤ k) (hs : 0 < b.size) (bigend : Bool) :
